@@ -316,6 +316,11 @@ def work(task):
                 partner = (S.render(pt, pp), pw)
                 break
         explore_sentence(res, tree, idx, _nodes(sks[idx]) <= npairs, partner, _nodes(sks[idx]) <= nfull)
+        if _nodes(sks[idx]) == 0:
+            # statements made of leaves only: every leaf spelling (keywords, numbers, strings, %names%) in every position
+            for start in range(1, len(S.LEAVES)):
+                t2 = S.build_statement(sks[idx], cs, S.LeafSupply(idx + start))
+                explore_sentence(res, t2, idx + start, True, partner, True)
     return res
 
 
